@@ -4,7 +4,7 @@
 From Coq Require Import List ZArith QArith Bool.
 From PV Require Import lib.Sx lib.Str lib.Result model.GenScc model.SccTime model.SccStash model.SccDecoder model.SccLayout.
 From PV Require Import spec.Spec608 spec.SpecScc05.
-From PV Require Import proofs.SccTableFacts proofs.SccTableFixFacts proofs.SccDoubleFacts proofs.SccItalicsFacts proofs.SccPoponStage1 proofs.SccPoponStage2 proofs.SccPoponStage3 proofs.SccPoponStage4 proofs.SccPoponStage6 proofs.SccPoponStage5 proofs.SccPoponStage2c.
+From PV Require Import proofs.SccTableFacts proofs.SccTableFixFacts proofs.SccDoubleFacts proofs.SccItalicsFacts proofs.SccPoponStage1 proofs.SccPoponStage2 proofs.SccPoponStage3 proofs.SccPoponStage4 proofs.SccPoponStage6 proofs.SccPoponStage5 proofs.SccPoponStage2c proofs.SccPoponStage7.
 From PV Require Import spec.SpecSccTime proofs.SccPoponFacts.
 Import ListNotations.
 Open Scope Z_scope.
@@ -274,6 +274,20 @@ Theorem C05_popon_stage6_refines_partial : forall d off segs evs spans,
                dom_c05 (mkProg d (ploads_of segs)) = true.
 Proof. exact popon_stage6. Qed.
 Print Assumptions C05_popon_stage6_refines_partial.
+
+(* ---- STAGE 7 = popon_refines_608 for WHOLE PROGRAMS whose rows carry basic / special / extended characters, backspaces
+        and ANY preamble style incl. italics (every item kind except mid-row codes): any number of loads of any number of
+        rows, one load per line, Erase-Displayed-Memory lines anywhere; obtained from stage 5b by a lifting theorem that is
+        generic in the class of loads (proofs/SccPoponStage7.v, Section Lift) ----------------------------------------------- *)
+Theorem C05_popon_stage7_refines_partial : forall d off segs evs spans,
+  forallb (fun s => match s with PLoad _ l => rich_load_any l | PClear _ => true end) segs = true ->
+  res_map (pseg_event d off) segs = Ok evs -> positive evs -> after_show None evs ->
+  expected_with join_threshold evs = Ok spans ->
+  exists caps, read off (map (pseg_line d) segs) = ROk caps /\
+               ok_c05 (mkProg d (ploads_of segs)) (Ok (map observe caps)) = true /\
+               dom_c05 (mkProg d (ploads_of segs)) = true.
+Proof. exact popon_stage7. Qed.
+Print Assumptions C05_popon_stage7_refines_partial.
 
 (* ---- non-vacuity / behaviour after fix #22: the second caption is addressed on its own ---------------------------- *)
 Example C05_example_two_loads :
